@@ -88,7 +88,7 @@ def main(argv):
                 if b > a:
                     p.copy_(init_full[i].flatten()[a:b])
         if S["mode"] == "hsdp":
-            dcfg = ds.HSDPShampooConfig(param_to_metadata=md, device_mesh=mesh, num_trainers_per_group=S["G"], communication_dtype=getattr(ds.CommunicationDType, S["comm"]), communicate_params=S["communicate_params"])
+            dcfg = ds.HSDPShampooConfig(param_to_metadata=md, device_mesh=mesh, num_trainers_per_group=S.get("G_arg", S["G"]), communication_dtype=getattr(ds.CommunicationDType, S["comm"]), communicate_params=S["communicate_params"])
         else:
             dcfg = ds.FSDPShampooConfig(param_to_metadata=md)
         opt = G.build_optimizer(ds, torch, cfg, params, distributed_config=dcfg)
